@@ -10,6 +10,7 @@ package shrex_getter
 import (
 	"bytes"
 	"context"
+	"encoding/binary"
 	"errors"
 	"fmt"
 	"io"
@@ -94,10 +95,11 @@ const (
 	bGarbled
 	bOtherSquare
 	bOtherCoords
+	bExtraRow
 	nBehaviours
 )
 
-var vsBehaviourNames = []string{"honest", "not-found", "internal", "silent", "reset-early", "reset-mid-payload", "resource-limit-reset", "rate-limit-reset", "truncated", "trailing-bytes", "garbled", "other-square", "other-coordinates"}
+var vsBehaviourNames = []string{"honest", "not-found", "internal", "silent", "reset-early", "reset-mid-payload", "resource-limit-reset", "rate-limit-reset", "truncated", "trailing-bytes", "garbled", "other-square", "other-coordinates", "extra-row"}
 
 // vsGiveUp makes the caller cancel its call at the instant the k-th complete answer has been written
 // to it: the answer is read in full while the request is already abandoned.
@@ -228,6 +230,10 @@ func vsProxy(s *verifsim.Sim, p *vsPeer, self *verifnet.Host, honest, other peer
 			resp = resp[:k]
 		case bTrailing:
 			resp = append(resp, 0x0a, 0x03, 0x01, 0x02, 0x03)
+		case bExtraRow:
+			// the complete honest answer followed by one more well-formed message: its last
+			// length-delimited frame once again (for namespace data: a surplus row)
+			resp = vsRepeatLastFrame(resp)
 		case bGarbled:
 			if len(resp) > 8 {
 				i := 4 + (len(resp)-4)*2/3
@@ -241,6 +247,24 @@ func vsProxy(s *verifsim.Sim, p *vsPeer, self *verifnet.Host, honest, other peer
 			p.giveUp.answered(s)
 		}
 	}
+}
+
+// vsRepeatLastFrame appends a copy of the last uvarint-length-delimited frame of a response.
+func vsRepeatLastFrame(resp []byte) []byte {
+	off, last, n := 0, -1, 0
+	for off < len(resp) {
+		l, k := binary.Uvarint(resp[off:])
+		if k <= 0 || off+k+int(l) > len(resp) {
+			break
+		}
+		last = off
+		off += k + int(l)
+		n++
+	}
+	if last < 0 || n < 2 || off != len(resp) {
+		return resp // only the status message, or not a sequence of frames (e.g. a raw square)
+	}
+	return append(append([]byte{}, resp...), resp[last:]...)
 }
 
 // vsShiftRequest rewrites a request ID so that it asks for neighbouring data of the same block.
@@ -338,9 +362,9 @@ func vsGetterWorld(s *verifsim.Sim) {
 				b = bHonest
 			case 1:
 				// eventually honest: every misbehaviour answers (silence legitimately eats the deadline)
-				b = s.ChooseW([]int{4, 1, 1, 0, 1, 1, 1, 1, 2, 1, 2, 2, 2}, "behaviour")
+				b = s.ChooseW([]int{4, 1, 1, 0, 1, 1, 1, 1, 2, 1, 2, 2, 2, 1}, "behaviour")
 			default:
-				b = s.ChooseW([]int{4, 1, 1, 1, 1, 1, 1, 1, 2, 1, 2, 2, 2}, "behaviour")
+				b = s.ChooseW([]int{4, 1, 1, 1, 1, 1, 1, 1, 2, 1, 2, 2, 2, 1}, "behaviour")
 			}
 			p.script = append(p.script, b)
 		}
